@@ -14,6 +14,12 @@ CHECKS = {
  "C15": ("profile_wf checker evaluated by vm_compute on the profile tables, struct layouts and constructor values regenerated from the compiled library on every run, lifted by generic soundness lemmas to the forall (message, field) statements; independently re-evaluated on the implementation by reflection and by one single-field stream per entry and byte order through the real Decode in lock step with the model",
          "Coq kernel + vm_compute; no axioms; translator vh gen (reflection through the verif hooks); SDK field-name clause is a regression oracle against a snapshot (partial)",
          "Rocq proof by reflection (boolean checker + soundness lemmas) over translator-regenerated tables"),
+ "C03": ("route_spec/dropped_no_effect/add_no_panic proved by induction over arbitrary message sequences for every valid file type, from routing_wf (vm_compute comparison of the routing observed by probing the real add methods with what the container struct types prescribe); init_exact over all 256 values; accessor_exact; spec re-evaluated on the implementation through direct add sequences and lock-step decoding",
+         "Coq kernel + vm_compute; no axioms; translator probes File.add through the verif hook for 256 file types x every known message type; 17 valid types and 5 expanding types written from the property text; known finding second_file_id",
+         "Rocq proof (induction over message sequences + boolean checker over a probed table) with correspondence"),
+ "C18": ("accumulate_spec (induction over value lists, uint32 wrap explicit), widen16/event/csd lemmas for all source bit patterns, refutation witnesses for the three recorded defects; the extracted spec is evaluated on the real expandComponents and on files decoded one after another in one process",
+         "Coq kernel + vm_compute; no axioms; hand-written model of the generated expandComponents bodies tied by correspondence through the hook and Decode; three known findings (generated code pinned by goldens / package-level accumulators)",
+         "Rocq proof (induction, finite sweeps lifted by lemma, refutation witnesses) with differential correspondence"),
 }
 
 def main():
